@@ -19,8 +19,9 @@ VARIABLES sc, emitted
 
 Offsets == IF OffSet = {} THEN 0..OffHi ELSE OffSet
 Positions == 0..2
-Reqs == {"CreateContainer", "UpdateContainer", "StopContainer", "StartContainer", "UpdatePodSandbox"}
-FastFaults == {"none", "close-before", "close-during", "handler-error", "handler-error-deadline", "close-after", "wrong-frame"}
+Reqs == {"CreateContainer", "UpdateContainer", "StopContainer", "StartContainer", "UpdatePodSandbox",
+         "RemoveContainer", "RemovePodSandbox", "StopPodSandbox", "PostCreateContainer"}
+FastFaults == {"none", "close-before", "deaf-before", "close-during", "handler-error", "handler-error-deadline", "close-after", "wrong-frame"}
 SlowFaults == {"hang", "hang-ctx", "garbage"}
 
 Scenarios ==
